@@ -463,6 +463,8 @@ class X:
             return o
         if hasattr(v, 'havoc'):
             return v.havoc(self, hint)
+        if z3.is_expr(v):
+            return self.fresh(v.sort(), hint)      # a ghost kept as a bare term (array, int, ...)
         raise Unsupported(f'cannot havoc a value of type {type(v).__name__} ({hint})')
 
     # ---- logical interface used by contracts
@@ -752,6 +754,10 @@ class X:
         for t in s.targets:
             if isinstance(t, ast.Name):
                 self.env.pop(t.id, None)
+            elif isinstance(t, ast.Subscript) and not isinstance(t.slice, ast.Slice):
+                obj, key = self.eval(t.value), self.eval(t.slice)
+                if not self.contract.delitem_hook(self, obj, key):
+                    raise Unsupported('del of an item the contract does not model')
             else:
                 raise Unsupported('del of non-name')
 
@@ -1038,6 +1044,12 @@ class X:
                 _, length, item_at = inner
                 return ('indexed', length, lambda i: VTuple([VInt(i + start), item_at(i)]))
             raise Unsupported('enumerate over generator')
+        if isinstance(node, ast.Call) and isinstance(node.func, ast.Name) and node.func.id == 'zip' and 'zip' not in self.env \
+                and node.args and not node.keywords and not any(isinstance(a, ast.Starred) for a in node.args):
+            inners = [self.eval_iter(a) for a in node.args]
+            if all(i[0] == 'concrete' for i in inners):
+                return ('concrete', [VTuple(list(t)) for t in zip(*[i[1] for i in inners])])
+            raise Unsupported('zip over iterables of unknown length')
         v = self.eval(node)
         if hasattr(v, 'indexed'):
             length, item_at = v.indexed()
@@ -1103,6 +1115,8 @@ class X:
         for i in e.elts:
             if isinstance(i, ast.Starred):
                 sv = self.eval(i.value)
+                if len(e.elts) == 1 and hasattr(sv, 'snapshot'):
+                    return sv.snapshot(self)       # [*view]: a new list of the current items of a symbolic collection
                 if not isinstance(sv, (VTuple, VList)):
                     raise Unsupported('starred element of unknown length in a list display')
                 items.extend(sv.items)
@@ -1490,27 +1504,30 @@ class X:
         r = self.contract.genexp_hook(self, e)
         if r is not None:
             return r
-        # comprehension over iterables of statically known length: plain unrolling (its own scope for the targets)
+        return VList(self._unroll_comprehension(e, lambda: self.eval(e.elt)))
+
+    def _unroll_comprehension(self, e, elt):
+        """comprehension over iterables of statically known length: plain unrolling (its own scope for the targets)"""
         saved = dict(self.env)
         try:
             out = []
 
             def rec(gi):
                 if gi == len(e.generators):
-                    out.append(self.eval(e.elt))
+                    out.append(elt())
                     return
                 g = e.generators[gi]
                 if g.is_async:
                     raise Unsupported('async comprehension')
                 it = self.eval_iter(g.iter)
                 if it[0] != 'concrete':
-                    raise Unsupported('list comprehension over an iterable of unknown length')
+                    raise Unsupported('comprehension over an iterable of unknown length')
                 for item in it[1]:
                     self.assign(g.target, item)
                     if all(self.decide(self.truth(self.eval(c))) for c in g.ifs):
                         rec(gi + 1)
             rec(0)
-            return VList(out)
+            return out
         finally:
             self.env.clear()
             self.env.update(saved)
@@ -1519,7 +1536,8 @@ class X:
         r = self.contract.genexp_hook(self, e)
         if r is not None:
             return r
-        raise Unsupported('dict comprehension')
+        # key before value, as Python evaluates them
+        return VDictLit(self._unroll_comprehension(e, lambda: (self.eval(e.key), self.eval(e.value))))
 
     def ex_Dict(self, e):
         if not e.keys:
@@ -1591,6 +1609,7 @@ class Contract:
     raises = ()           # exception classes allowed to escape (default post_raise)
     assumptions = ()      # free text: trusted/assumed facts this contract relies on
     expected_labels = ()  # obligation labels that must be generated (vacuity guard)
+    defaults = {}         # parameter -> source text of its default value, where the property depends on it
     max_paths = 400
 
     def pre(self, X):
@@ -1606,6 +1625,10 @@ class Contract:
 
     def on_yield(self, X, val):
         raise Unsupported('yield without a generator contract')
+
+    def delitem_hook(self, X, obj, key):
+        """`del obj[key]`: return True when handled"""
+        return None
 
     def havoc_override(self, X, k, name):
         return None
@@ -1720,4 +1743,20 @@ class Driver:
                 self.unsupported.append(f'{u} [path {x.taken}]')
             except (_Break, _Continue):
                 self.unsupported.append('break/continue outside loop')
+        self._signature_obligations()
         return list(self.obligations.values())
+
+    def _signature_obligations(self):
+        """the body is verified for ALL argument values, so the values the function takes when the caller gives none are outside the
+        body proof: a contract lists the defaults its property depends on (`defaults = {param: source text}`) and each becomes an
+        obligation of its own (decided by comparing the source text of the default expression)"""
+        want = getattr(self.contract, 'defaults', None)
+        if not want:
+            return
+        a = self.src.node.args
+        pos = a.posonlyargs + a.args
+        have = {p.arg: ast.unparse(d) for p, d in zip(pos[len(pos) - len(a.defaults):], a.defaults)}
+        have.update({p.arg: ast.unparse(d) for p, d in zip(a.kwonlyargs, a.kw_defaults) if d is not None})
+        for name, src in want.items():
+            self.add_obligation(Obligation(f'signature.default_of_{name}_is_{src}', [], z3.BoolVal(have.get(name) == src), 'prove',
+                                           ('line', self.src.lineno), []))
